@@ -114,4 +114,26 @@ def evalRecommend (t : Table) (own : DefaultDS) (ebest erbest : Option Best) (li
     (evalLow t own ebest erbest).map some
   else (evalHigh t own ebest erbest).map some
 
+/-! ### `BestAnnounceMessage::compare` -/
+
+/-- `lhsSelf`: `compare_dataset` builds its left operand from `self`; `tieOtherFirst`: the tie-break is
+`other.age.cmp(&self.age)`; `datasetFirst`: the data set ordering is consulted before the tie-break -/
+structure BestCmpTable where
+  lhsSelf : Bool
+  tieOtherFirst : Bool
+  datasetFirst : Bool
+  deriving Repr, Inhabited
+
+def ordThen (a b : Ordering) : Ordering :=
+  match a with
+  | .eq => b
+  | o => o
+
+def evalBestCompare (t : BestCmpTable) (x y : Best) : Ordering :=
+  let dx := CmpDS.ofAnnounce x.ann x.identity
+  let dy := CmpDS.ofAnnounce y.ann y.identity
+  let ds := (if t.lhsSelf then dx.compare dy else dy.compare dx).asOrdering
+  let tie := if t.tieOtherFirst then cmpInt y.age x.age else cmpInt x.age y.age
+  if t.datasetFirst then ordThen ds tie else ordThen tie ds
+
 end Statime.DecGen
